@@ -229,6 +229,9 @@ func newRunDir() string {
 func hashTrace(ss []string) uint64 {
 	c := append([]string(nil), ss...)
 	sort.Strings(c)
+	if f := os.Getenv("VERIF_TRACE_FILE"); f != "" {
+		os.WriteFile(f, []byte(strings.Join(ss, "\n")+"\n"), 0644) // in recording order, for diffing two processes
+	}
 	return hashStrings(c)
 }
 
